@@ -32,7 +32,8 @@ EXPLANATION = ("theorems: spec lemmas of the key-value specification for every s
 
 KEYS = ["a", "a/b", "a-b", "a~_b", "a/", "a//b", "-R/x", "x/-/a", "a-~X~b~E", "é", "..", "a b"]
 UNSAFE_NESTED = {"a/", "a//b", ".."}
-VALUES = [None, 0, 7, 1.5, True, "", "text é value", b"", b"\x00\xffbinary\x01", {"a": 1, "b": [1, 2]}, {}, [1, "x"], (1, 2)]
+# "is it ok?" / b"\xfb\xff\xfe": their base64 texts contain '/' and '+' (the two characters in which the standard and the url-safe alphabet differ)
+VALUES = [None, 0, 7, 1.5, True, "", "text é value", b"", b"\x00\xffbinary\x01", {"a": 1, "b": [1, 2]}, {}, [1, "x"], (1, 2), "is it ok?", b"\xfb\xff\xfe"]
 STATUSES = ["ready", "evaluation", "error", "evaluating parent"]
 ATTR_VALUES = [True, False, "x", "", "y"]
 XOR_CODE = bytes([0x5A, 0x13, 0xC7, 0x2E, 0x91, 0x7F, 0x08])
